@@ -20,6 +20,6 @@ git checkout -q -- . && git clean -fdq
 cd /verif
 trap 'git -C /repo checkout -- . 2>/dev/null' EXIT
 git -C /repo apply $SD/patch.diff || { echo "PATCH DOES NOT APPLY to /repo"; exit 3; }
-for P in "$@"; do echo "== check $P on patched /repo"; ./check $P quick 2>&1 | grep -v "^\[Verif" | cut -c1-300 | tail -4; echo "exit=$?"; done
+for P in "$@"; do echo "== check $P on patched /repo"; ./check $P quick > /tmp/seedeval_check.out 2>&1; echo "exit=$?"; grep -E "^(VIOLATION|OK)" /tmp/seedeval_check.out | cut -c1-300 | head -6; grep -E "^INCONCLUSIVE" /tmp/seedeval_check.out | cut -c1-200 | sort | uniq -c | head -3; done
 git -C /repo checkout -- .
 git -C /repo status --short | head -3
